@@ -218,11 +218,20 @@ class Evaluator:
             val = self.expr(n.value)
             for t in n.targets:
                 self.assign(t, val)
+        elif isinstance(n, ast.AnnAssign):
+            if n.value is not None:
+                self.assign(n.target, self.expr(n.value))
         elif isinstance(n, ast.AugAssign):
             if not isinstance(n.op, ast.Add):
                 raise Unencodable("augmented assignment other than +=", n)
             cur = self.expr(_load(n.target))
-            self.assign(n.target, self.add(cur, self.expr(n.value), n))
+            if type(cur) is list:
+                more = self.expr(n.value)
+                if self._symbolic(more):
+                    raise Unencodable("list extended by a symbolic iterable", n)
+                cur.extend(more)  # in place, like the real +=
+            else:
+                self.assign(n.target, self.add(cur, self.expr(n.value), n))
         elif isinstance(n, ast.If):
             touched = self.env_touch
             test = self.expr(n.test)
@@ -389,8 +398,15 @@ class Evaluator:
             return [self.expr(e) for e in n.elts]
         if isinstance(n, ast.Dict):
             return {self.expr(k): self.expr(v) for k, v in zip(n.keys, n.values) if k is not None}
-        if isinstance(n, ast.DictComp) or isinstance(n, ast.ListComp) or isinstance(n, ast.GeneratorExp):
-            raise Unencodable("comprehension on the encoded path", n)
+        if isinstance(n, (ast.ListComp, ast.GeneratorExp, ast.SetComp, ast.DictComp)):
+            return self.comprehension(n)
+        if isinstance(n, ast.IfExp):
+            test = self.expr(n.test)
+            if self._symbolic(test):
+                raise Unencodable("conditional expression on a symbolic value", n)
+            return self.expr(n.body if test else n.orelse)
+        if isinstance(n, ast.Starred):
+            raise Unencodable("starred expression", n)
         if isinstance(n, ast.Subscript):
             base = self.expr(n.value)
             if self._symbolic(base):
@@ -402,6 +418,53 @@ class Evaluator:
                 return EnvTwin(key)
             return base[key]
         raise Unencodable(f"expression {type(n).__name__}", n)
+
+    def comprehension(self, n: Any) -> Any:
+        """List / generator / set / dict comprehensions over concrete iterables (whose items may
+        be symbolic): unrolled.  Generator expressions are evaluated eagerly into a list, which is
+        equivalent on the encoded path (no exception, no early exit of the consumer)."""
+        out: list[Any] = []
+        saved = dict(self.env)
+
+        def rec(k: int) -> None:
+            if k == len(n.generators):
+                if isinstance(n, ast.DictComp):
+                    out.append((self.expr(n.key), self.expr(n.value)))
+                else:
+                    out.append(self.expr(n.elt))
+                return
+            g = n.generators[k]
+            if g.is_async:
+                raise Unencodable("async comprehension", n)
+            it = self.expr(g.iter)
+            if self._symbolic(it):
+                raise Unencodable("comprehension over a symbolic iterable", n)
+            for item in list(it):
+                self.assign(g.target, item)
+                ok = True
+                for cond in g.ifs:
+                    c = self.expr(cond)
+                    if self._symbolic(c):
+                        raise Unencodable("comprehension filter on a symbolic value", n)
+                    if not c:
+                        ok = False
+                        break
+                if ok:
+                    rec(k + 1)
+
+        try:
+            rec(0)
+        finally:
+            # comprehension variables are local to the comprehension
+            self.env.clear()
+            self.env.update(saved)
+        if isinstance(n, ast.DictComp):
+            return dict(out)
+        if isinstance(n, ast.SetComp):
+            if any(self._symbolic(x) for x in out):
+                raise Unencodable("set of symbolic values", n)
+            return set(out)
+        return out
 
     def to_str(self, v: Any, conversion: int, n: ast.AST) -> Any:
         if isinstance(v, SymVal):
@@ -509,6 +572,31 @@ class Evaluator:
             if args[1] == "content_id":
                 args[0].recorded["__env_at_content_id__"] = len(self.env_trace)
             return None
+        owner = getattr(fn, "__self__", None)
+        if getattr(fn, "__name__", "") == "join" and isinstance(owner, str) and len(args) == 1 and not kwargs and not self._symbolic(args[0]):
+            parts = list(args[0])
+            if any(isinstance(x, (SymStr, SymLen)) for x in parts):
+                out = SymStr([])
+                for k, part in enumerate(parts):
+                    if k:
+                        out = out + owner
+                    if isinstance(part, SymVal) or (self._symbolic(part) and not isinstance(part, (SymStr, SymLen))):
+                        raise Unencodable("str.join of a non-string symbolic value", n)
+                    out = out + part
+                return out
+            if any(self._symbolic(x) for x in parts):
+                raise Unencodable("str.join of a non-string symbolic value", n)
+            return owner.join(parts)
+        if isinstance(owner, (list, dict)) and type(owner) in (list, dict) and getattr(fn, "__name__", "") in ("append", "extend", "insert", "setdefault", "update", "get", "pop", "items", "keys", "values", "copy", "reverse", "clear", "__setitem__", "__getitem__"):
+            # plain containers may hold symbolic values; the container operation itself is concrete
+            if getattr(fn, "__name__", "") in ("extend", "update") and args and self._symbolic(args[0]):
+                raise Unencodable("container extended by a symbolic iterable", n)
+            if getattr(fn, "__name__", "") in ("get", "pop", "setdefault", "__getitem__", "__setitem__") and args and self._symbolic(args[0]) and isinstance(owner, dict):
+                raise Unencodable("dict keyed by a symbolic value", n)
+            return fn(*args, **kwargs)
+        if fn in (list, tuple, reversed, enumerate, zip, iter) and args and not any(self._symbolic(a) for a in args):
+            res = fn(*args, **kwargs)
+            return list(res) if fn in (reversed, enumerate, zip, iter) else res
         if any(self._symbolic(a) for a in args) or any(self._symbolic(v) for v in kwargs.values()):
             target = getattr(fn, "__wrapped__", fn)  # functools wrappers (lru_cache ...): treated as pure
             import types as _types
@@ -516,6 +604,12 @@ class Evaluator:
             if isinstance(target, _types.FunctionType) and (target.__module__ or "").startswith("pyoak"):
                 return self.inline(target, args, kwargs, n)
             raise Unencodable(f"call of {getattr(fn, '__name__', fn)!r} with a symbolic argument", n)
+        import types as _types2
+
+        target2 = getattr(fn, "__wrapped__", fn)
+        if isinstance(target2, _types2.FunctionType) and (target2.__module__ or "").startswith("pyoak") and ({"blake2b", "hashlib"} & set(target2.__code__.co_names)):
+            # a digest helper called on a fully concrete pre-image: still recorded as H(pre-image)
+            return self.inline(target2, args, kwargs, n)
         return fn(*args, **kwargs)
 
     def inline(self, fn: Any, args: list[Any], kwargs: dict[str, Any], n: ast.AST) -> Any:
